@@ -40,6 +40,28 @@ structure Inv (impl : Impl) (s : State) : Prop where
 /-- "`ffi.dlclose` has returned": handle NULL and nothing cached. -/
 def Closed (s : State) : Prop := s.isOpen = false ∧ s.cachedF = [] ∧ s.cachedV = []
 
+open CffiVerif.Generated.DlCloseSteps in
+/-- **The order the invariant needs is the order of the source** (re-extracted on every run into
+`Generated/DlCloseSteps.lean`): out-of-line, `ffi_dlclose` NULLs the handle *before* it clears `l_dict` and
+calls `dlclose()` last, with the GIL held throughout, `cdlopen_fetch` refuses a NULL handle before `dlsym`, and
+lib_obj.c reaches the library only through it; in-line, `dl_close_lib` does `dlclose()` + NULL in one call with
+the GIL held, every accessor starts with `dl_check_closed`, and `__cffi_close__` calls `close_lib()` before
+`__dict__.clear()`. -/
+theorem close_order_is_source :
+    outOfLineClose.idxOf Act.nullHandle < outOfLineClose.idxOf Act.clearCache ∧
+    outOfLineClose.idxOf Act.clearCache < outOfLineClose.idxOf Act.sysDlclose ∧
+    outOfLineClose.length = 3 ∧
+    outOfLineGilReleased = false ∧ outOfLineFetchChecksNull = true ∧ outOfLineOnlyThroughFetch = true ∧
+    inlineCloseLib = [Act.sysDlclose, Act.nullHandle] ∧ inlineCloseLibGilReleased = false ∧
+    inlineAccessorsCheckClosed = true ∧ inlinePyClose = [PyAct.closeLib, PyAct.clearDict] := by decide
+
+/-- The step function built from the extracted lists is the one all the proofs below are about. -/
+theorem closeStep_eq_spec (impl : Impl) (s : State) : closeStep impl s = closeStepSpec impl s := by
+  cases impl <;> cases hp : s.phase <;> cases ho : s.isOpen <;>
+    simp [closeStep, closeStepSpec, closeGroups, phaseIdx, idxPhase, applyAct, hp, ho,
+      CffiVerif.Generated.DlCloseSteps.outOfLineClose, CffiVerif.Generated.DlCloseSteps.inlineCloseLib,
+      CffiVerif.Generated.DlCloseSteps.inlinePyClose]
+
 theorem inv_open (impl : Impl) (funcs : List Name) (vars : List (Name × Int)) : Inv impl (openLib funcs vars) := by
   constructor <;> simp [openLib]
 
@@ -47,7 +69,7 @@ theorem inv_open (impl : Impl) (funcs : List Name) (vars : List (Name × Int)) :
 theorem inv_step (impl : Impl) (s : State) (op : Op) (hi : Inv impl s) : Inv impl (step impl s op).1 := by
   obtain ⟨h1, h2, h3, h4, h5⟩ := hi
   cases impl <;> cases op <;>
-    simp only [step, closeStep, closeAll, fetchVar, derefVar, outOf] <;>
+    simp only [step, closeStep_eq_spec, closeStepSpec, closeAll, fetchVar, derefVar, outOf] <;>
     constructor <;> grind
 
 theorem inv_run (impl : Impl) (s : State) (ops : List Op) (hi : Inv impl s) : Inv impl (run impl s ops) := by
@@ -70,7 +92,7 @@ theorem closed_step (impl : Impl) (s : State) (hc : Closed s) (op : Op) :
     (op = .close → (step impl s op).2 = .done) := by
   obtain ⟨ho, hf, hv⟩ := hc
   cases impl <;> cases op <;> cases hp : s.phase <;>
-    simp [Closed, step, closeStep, closeAll, fetchVar, outOf, ho, hf, hv, hp]
+    simp [Closed, step, closeStep_eq_spec, closeStepSpec, closeAll, fetchVar, outOf, ho, hf, hv, hp]
 
 theorem closed_run (impl : Impl) (s : State) (ops : List Op) (hc : Closed s) : Closed (run impl s ops) := by
   induction ops generalizing s with
@@ -85,7 +107,7 @@ theorem done_closed (impl : Impl) (s : State) (op : Op) (hi : Inv impl s)
   have hopen : (step impl s op).1.isOpen = false := by
     obtain ⟨h1, h2, h3, h4, h5⟩ := hi
     cases impl <;> cases op <;>
-      simp only [step, closeStep, closeAll, fetchVar, derefVar, outOf] at hd hp ⊢ <;> grind
+      simp only [step, closeStep_eq_spec, closeStepSpec, closeAll, fetchVar, derefVar, outOf] at hd hp ⊢ <;> grind
   rcases hi'.closed_empty hopen with h | h
   · rw [hp] at h; cases h
   · exact ⟨hopen, h.1, h.2⟩
@@ -155,15 +177,15 @@ theorem stepwise_close_returns (impl : Impl) (s : State) (mid1 mid2 : List Op) (
   intro s1 s2
   have p1 : s1.phase = .nulled := by
     rw [keep mid1 _ hm1]
-    cases impl <;> simp [step, closeStep, hp, ho]
+    cases impl <;> simp [step, closeStep_eq_spec, closeStepSpec, hp, ho]
   constructor
   · intro hin; subst hin
-    simp [step, closeStep, p1]
+    simp [step, closeStep_eq_spec, closeStepSpec, p1]
   · intro hout; subst hout
     have p2 : s2.phase = .cleared := by
       rw [keep mid2 _ hm2]
-      simp [step, closeStep, p1]
-    simp [step, closeStep, p2]
+      simp [step, closeStep_eq_spec, closeStepSpec, p1]
+    simp [step, closeStep_eq_spec, closeStepSpec, p2]
 
 /-- **Closing again is harmless**: in every state `close` returns normally, and a second
 `close` right after changes nothing. -/
@@ -222,7 +244,7 @@ theorem step_ne_useAfterUnload (impl : Impl) (s : State) (op : Op) (h4 : s.loade
         · exact outOf_ne _ _ _ (derefVar_ne s n hl) (by simp)
       · exact outOf_ne _ _ _ (hf n) (by simp)
   | close => simp [step]
-  | closeStep => cases impl <;> cases hp : s.phase <;> simp [step, closeStep, hp] <;> split <;> simp
+  | closeStep => cases impl <;> cases hp : s.phase <;> simp [step, closeStep_eq_spec, closeStepSpec, hp] <;> split <;> simp
 
 /-- **No access ever goes to the library after `dlclose()` gave the reference back**, in any history
 and any interleaving with the steps of a close. -/
